@@ -57,7 +57,7 @@ MEMBER_OPS = {
     "PlannerSolutionSet::": ["solutions", "solmix", "solrace"],
     "AllocatedSpaces::": ["spaces"],
     "DefaultOutputHandler::": ["logging", "logpark"],
-    "GoalLazySamples::": ["goallazy"],
+    "GoalLazySamples::": ["goallazy", "goalctl"],
     "CForest::": ["cfrace"],
     "CForestStateSampler::": ["cfrace"],
 }
@@ -937,6 +937,7 @@ def surface_ops(rng, tier, tsan):
         ops += ["logging %d %d" % (T(2, 8), 200)]
         ops += ["logpark 3"]
         ops += ["goallazy %d %d %d" % (T(2, 6), 400, rng.below(1000))]
+        ops += ["goalctl %d 12 0" % T(2, 6), "goalctl %d 6 1" % rng.below(3)]
         ops += ["terminate %d 0" % T(2, 8), "terminate %d 1" % T(2, 6), "terminate %d 2" % T(2, 6)]
     else:
         reps = 2 if not big else 5
@@ -957,6 +958,9 @@ def surface_ops(rng, tier, tsan):
             ops += ["logging %d %d" % (T(), 1500)]
             ops += ["logpark %d" % (3 if not big else 10)]
             ops += ["goallazy %d %d %d" % (T(2, 12), 600 if not big else 2000, rng.below(1000))]
+            ops += ["goalctl %d %d 0" % (T(2, 12), 20 if not big else 60)]
+        if not tsan:
+            ops += ["goalctl %d 6 1" % rng.below(4)]
             ops += ["terminate %d 0" % T(), "terminate %d 1" % T(2, 8), "terminate %d 2" % T(2, 8)]
     return ops
 
@@ -1337,6 +1341,10 @@ def run(ck):
         if op != "planner" and set(member_for_op(op, plain_members)) & reported_members:
             continue   # explained by a member already reported
         rec = {"engine": "conc", "kind": "functional", "op": op, "build": "tsan" if res["tsan"] else "plain"}
+        if op == "goalctl":
+            rec["mode"] = res["op"].split()[3]
+            rec["class"] = ("double-stop-hang" if what.startswith("two threads called stopSampling") else
+                            "no-output" if what.startswith("no output") or what.startswith("harness exited") else "oracle")
         if op == "planner":
             rec["planner"] = res["op"].split()[1]
             # a run that died / hung (no result line) vs a result the path oracle rejects
